@@ -125,9 +125,10 @@ pub fn start_fsm_with_data_and_finish_mode(
     {
         let mut gc = global_data.lock().unwrap();
         gc.actions = actions;
-        let executor_state_lock = executor.state.lock();
-        let guard = executor_state_lock.unwrap();
-        for p in &guard.processors {
+        // The lock of the executor state is released before a processor is locked: a session that sends
+        // an event holds the processor and then needs the executor state.
+        let processors = executor.state.lock().unwrap().processors.clone();
+        for p in &processors {
             let pg = p.lock().unwrap();
             for t in pg.get_types() {
                 gc.io_processors.insert(t.to_string(), p.clone());
